@@ -689,6 +689,77 @@ fn ipv6_part(ctx: &Ctx, res: &mut PartResult) {
     res.sample(json!({"allowlist": ["127.0.0.1", "0.0.0.0/8"], "peer": "::1", "expected": "403, empty body"}));
 }
 
+/// Resource exhaustion as a fault of `accept()` itself: with the process at its file-descriptor limit the exporter's
+/// accept fails (EMFILE) for a scraper that has already connected; once descriptors are free again later clients (and
+/// the waiting one) must be served. Runs in its own part process (the limit is per process).
+fn fd_exhaustion_part(res: &mut PartResult) {
+    res.engine = "E4 scripted fault history: accept() failing with EMFILE, then descriptors released".into();
+    res.executions = 1;
+    res.states = 1;
+    res.distinct_outcomes = 1;
+    for allow in [None, Some(vec!["127.0.0.0/30"])] {
+        let ex = match start(allow.as_deref().unwrap_or(&[])) {
+            Ok(e) => e,
+            Err((sig, msg)) => {
+                res.violation(&sig, msg, json!({}));
+                return;
+            }
+        };
+        let cfg = json!({"fd_exhaustion": true, "allow": format!("{:?}", allow)});
+        if let Err((sig, msg)) = judge(allow.as_deref(), [127, 0, 0, 1], "/metrics", &get_patient(Ipv4Addr::LOCALHOST, ex.addr, "/metrics")) {
+            res.violation(&sig, format!("baseline scrape before the fault: {}", msg), cfg.clone());
+            return;
+        }
+        // lower the soft limit, then fill the table
+        let mut lim = libc::rlimit { rlim_cur: 0, rlim_max: 0 };
+        unsafe { libc::getrlimit(libc::RLIMIT_NOFILE, &mut lim) };
+        let old = lim;
+        lim.rlim_cur = 256.min(lim.rlim_max);
+        unsafe { libc::setrlimit(libc::RLIMIT_NOFILE, &lim) };
+        let mut filler: Vec<std::fs::File> = Vec::new();
+        while let Ok(f) = std::fs::File::open("/dev/null") {
+            filler.push(f);
+            if filler.len() > 100_000 {
+                break;
+            }
+        }
+        // one descriptor for the scraper's own socket; the exporter has none left for the accepted connection
+        filler.pop();
+        res.transitions += 1;
+        let waiting = connect_from(Ipv4Addr::LOCALHOST, ex.addr, false);
+        std::thread::sleep(Duration::from_millis(300));
+        drop(filler);
+        unsafe { libc::setrlimit(libc::RLIMIT_NOFILE, &old) };
+        res.transitions += 1;
+        for (peer, path) in [([127, 0, 0, 1], "/metrics"), ([127, 0, 0, 1], "/health"), ([127, 0, 2, 0], "/")] {
+            let r = get_patient(Ipv4Addr::from(peer), ex.addr, path);
+            if let Err((sig, msg)) = judge(allow.as_deref(), peer, path, &r) {
+                let sig = if sig == "client-not-served" { "later-client-not-served-after-disturbance".to_string() } else { sig };
+                res.violation(&sig, format!("after accept() had failed for lack of file descriptors (allowlist {:?}), and descriptors were free again, probe from {:?} GET {}: {}", allow, Ipv4Addr::from(peer), path, msg), cfg.clone());
+                break;
+            }
+        }
+        // the scraper that connected during the shortage is served as well once it sends its request
+        if let Ok(mut s) = waiting {
+            let _ = s.write_all(b"GET /health HTTP/1.1\r\nHost: x\r\nConnection: close\r\n\r\n");
+            s.set_read_timeout(Some(Duration::from_secs(10))).unwrap();
+            let mut buf = Vec::new();
+            let mut t = [0u8; 1024];
+            while let Ok(n) = s.read(&mut t) {
+                if n == 0 {
+                    break;
+                }
+                buf.extend_from_slice(&t[..n]);
+            }
+            if !String::from_utf8_lossy(&buf).starts_with("HTTP/1.1 200") {
+                res.violation("later-client-not-served-after-disturbance", format!("the scraper that had connected while accept() was failing got {:?} after descriptors were free again", String::from_utf8_lossy(&buf).chars().take(60).collect::<String>()), cfg.clone());
+            }
+        }
+        drop(ex);
+    }
+    res.sample(json!({"history": "scrape ok; descriptor table filled; a scraper connects (accept fails with EMFILE); descriptors released; probes", "expected": "all probes served"}));
+}
+
 fn parts(ctx: &Ctx) -> Vec<PartSpec> {
     THOROUGH.store(!ctx.quick(), std::sync::atomic::Ordering::SeqCst);
     let b = if ctx.quick() { 150.0 } else { 1800.0 };
@@ -704,6 +775,7 @@ fn parts(ctx: &Ctx) -> Vec<PartSpec> {
     let d = if ctx.quick() { 3 } else { 5 };
     v.push(PartSpec::new(&format!("upkeep-task-d{}", d), json!({"upkeep": d})).budget(b));
     v.push(PartSpec::new("ipv6-loopback", json!({"ipv6": true})).budget(b));
+    v.push(PartSpec::new("accept-out-of-descriptors", json!({"fds": true})).budget(b));
     v
 }
 
@@ -711,7 +783,9 @@ fn run(ctx: &Ctx, spec: &PartSpec) -> PartResult {
     THOROUGH.store(!ctx.quick(), std::sync::atomic::Ordering::SeqCst);
     let mut res = PartResult::new(&spec.name, "");
     vseq::quiet_panics();
-    if spec.arg["ipv6"].as_bool() == Some(true) {
+    if spec.arg["fds"].as_bool() == Some(true) {
+        fd_exhaustion_part(&mut res);
+    } else if spec.arg["ipv6"].as_bool() == Some(true) {
         ipv6_part(ctx, &mut res);
     } else if let Some(d) = spec.arg["upkeep"].as_u64() {
         upkeep_part(ctx, &mut res, d as usize);
@@ -732,7 +806,7 @@ fn main() {
     driver::main(CheckDef {
         prop: "C18",
         level: "fault_enumeration",
-        rule: "allowlists = none and all subsets of size 1-2 (thorough: ordered pairs and subsets of size 3) of {127.0.0.1 (plain address), 127.0.0.2/32, 127.0.0.0/30, 127.0.1.0/24, 10.0.0.0/8, ::1/128} x peers bound to {127.0.0.1,.2,.3,.4, 127.0.1.0, 127.0.1.255, 127.0.2.0, 127.1.1.1} x paths {/, /metrics, /health, /healthz; from two of the peers also a 9 kB path and a 60 kB query string}, one request each against a fresh real exporter (builder.build() on a tokio runtime); oracle: independent CIDR arithmetic; inside => 200 and the body parses (strict parser) to exactly the recorded state, /health => OK; outside => 403 with an empty body; plus all disturbance sequences of length <= 2 (thorough 3) over {garbage bytes, half a request then idle, connect + RST, 8 concurrent scrapers, 4 refused scrapes, a silent connection held open by a refused peer, a keep-alive connection idling after its answer held by a refused peer and by an allowed peer} each followed by probes that must be served; plus an exporter listening on [::1] scraped from ::1 under no allowlist and all subsets of size 1-2 of {::1, ::1/128, ::/64, ::/8, fe80::/10, 2001:db8::/32, 127.0.0.1, 0.0.0.0/8} (an IPv4 network never admits an IPv6 peer); plus all sequences (depth <= 3 quick / 5 thorough) over {record, scrape, wait for the exporter's periodic upkeep task (15 ms period)}: every scrape reports exactly the samples recorded so far; distinct_nontrivial = distinct (allowlist, peer, outcome) / (sequence, outcome) cases",
+        rule: "allowlists = none and all subsets of size 1-2 (thorough: ordered pairs and subsets of size 3) of {127.0.0.1 (plain address), 127.0.0.2/32, 127.0.0.0/30, 127.0.1.0/24, 10.0.0.0/8, ::1/128} x peers bound to {127.0.0.1,.2,.3,.4, 127.0.1.0, 127.0.1.255, 127.0.2.0, 127.1.1.1} x paths {/, /metrics, /health, /healthz; from two of the peers also a 9 kB path and a 60 kB query string}, one request each against a fresh real exporter (builder.build() on a tokio runtime); oracle: independent CIDR arithmetic; inside => 200 and the body parses (strict parser) to exactly the recorded state, /health => OK; outside => 403 with an empty body; plus all disturbance sequences of length <= 2 (thorough 3) over {garbage bytes, half a request then idle, connect + RST, 8 concurrent scrapers, 4 refused scrapes, a silent connection held open by a refused peer, a keep-alive connection idling after its answer held by a refused peer and by an allowed peer} each followed by probes that must be served; a scripted fault history in which accept() itself fails for lack of file descriptors (EMFILE) and descriptors are then released; plus an exporter listening on [::1] scraped from ::1 under no allowlist and all subsets of size 1-2 of {::1, ::1/128, ::/64, ::/8, fe80::/10, 2001:db8::/32, 127.0.0.1, 0.0.0.0/8} (an IPv4 network never admits an IPv6 peer); plus all sequences (depth <= 3 quick / 5 thorough) over {record, scrape, wait for the exporter's periodic upkeep task (15 ms period)}: every scrape reports exactly the samples recorded so far; distinct_nontrivial = distinct (allowlist, peer, outcome) / (sequence, outcome) cases",
         assumptions: &["tokio / hyper task scheduling runs free: request histories are enumerated, not the server's internal interleavings", "a response is awaited 3 s and then once more for 30 s before 'not served' is reported"],
         parts,
         run,
